@@ -1110,6 +1110,233 @@ def render_ntuple() -> str:
     return "\n".join(lines)
 
 
+# ---------------------------------------------------------------------------------------------
+# MapValidator (dictionary.py) -> Koda.MStmt (lean/KodaModel/PyMap.lean)
+
+OUT_MAP = os.path.join(os.path.dirname(OUT), "MapSrc.lean")
+MVARS = {"coerced": "coerced", "coerced_val": "coercedVal", "predicate_errors": "predicateErrors", "predicate": "predicate",
+         "pred_async": "predAsync", "return_dict": "returnDict", "errors": "errors", "key": "key", "val_": "valU",
+         "key_result": "keyResult", "val_result": "valResult"}
+MSELF = {"coerce": "coerce", "predicates": "predicates", "predicates_async": "predicatesAsync", "__class__": "cls",
+         "key_validator": "keyValidator", "value_validator": "valueValidator"}
+MATTRS = {"is_just": "isJust", "val": "valA", "compatible_types": "compatibleTypes", "is_valid": "isValid"}
+MCTORS = {"CoercionErr": ("mkCoercionErr", 2), "TypeErr": ("mkTypeErr", 1), "PredicateErrs": ("mkPredErrs", 1),
+          "MapErr": ("mkMapErr", 1), "Invalid": ("mkInvalid", 3), "Valid": ("mkValid", 1),
+          "_async_predicates_warning": ("warn", 1)}
+
+
+class MTr:
+    def exp(self, e: ast.expr) -> str:
+        if isinstance(e, ast.Name):
+            if e.id == "self":
+                return ".self"
+            if e.id == "val":
+                return ".val"
+            if e.id == "dict":
+                return ".dictTy"
+            if e.id in MVARS:
+                return f"(.var .{MVARS[e.id]})"
+        if isinstance(e, ast.Constant) and e.value is None:
+            return ".noneLit"
+        if isinstance(e, ast.List) and not e.elts:
+            return ".emptyList"
+        if isinstance(e, ast.Dict) and not e.keys:
+            return ".emptyDict"
+        if isinstance(e, ast.Await):
+            return f"(.await {self.exp(e.value)})"
+        if isinstance(e, ast.IfExp):
+            return f"(.ifExp {self.exp(e.test)} {self.exp(e.body)} {self.exp(e.orelse)})"
+        if isinstance(e, ast.BoolOp) and isinstance(e.op, ast.And) and len(e.values) == 2:
+            return f"(.and {self.exp(e.values[0])} {self.exp(e.values[1])})"
+        if isinstance(e, ast.NamedExpr) and isinstance(e.target, ast.Name) and e.target.id in MVARS:
+            return f"(.walrus .{MVARS[e.target.id]} {self.exp(e.value)})"
+        if isinstance(e, ast.UnaryOp) and isinstance(e.op, ast.Not):
+            return f"(.not {self.exp(e.operand)})"
+        if isinstance(e, ast.Compare) and len(e.ops) == 1:
+            l, r = e.left, e.comparators[0]
+            if (isinstance(e.ops[0], ast.Is) and isinstance(l, ast.Call) and isinstance(l.func, ast.Name) and l.func.id == "type"
+                    and len(l.args) == 1 and not l.keywords and isinstance(r, ast.Name) and r.id == "dict"):
+                return f"(.typeIs {self.exp(l.args[0])} .dictTy)"
+            if isinstance(e.ops[0], ast.IsNot) and isinstance(r, ast.Constant) and r.value is None:
+                return f"(.isNotNone {self.exp(l)})"
+        if isinstance(e, ast.Attribute):
+            if isinstance(e.value, ast.Name) and e.value.id == "self":
+                a = f".{MSELF[e.attr]}" if e.attr in MSELF else f"(.other {lstr(e.attr)})"
+                return f"(.selfAttr {a})"
+            a = f".{MATTRS[e.attr]}" if e.attr in MATTRS else f"(.other {lstr(e.attr)})"
+            return f"(.attr {self.exp(e.value)} {a})"
+        if isinstance(e, ast.Call) and not any(isinstance(a, ast.Starred) for a in e.args):
+            f, args, kws = e.func, e.args, e.keywords
+            if (isinstance(f, ast.Name) and f.id == "KeyValErrs" and not args and [k.arg for k in kws] == ["key", "val"]):
+                return f"(.mkKeyValErrs {self.exp(kws[0].value)} {self.exp(kws[1].value)})"
+            if kws:
+                return f"(.unsupported {lstr(ast.dump(e)[:160])})"
+            if isinstance(f, ast.Name) and f.id in MCTORS and len(args) == MCTORS[f.id][1]:
+                return f"(.{MCTORS[f.id][0]} {' '.join(self.exp(a) for a in args)})"
+            if isinstance(f, ast.Attribute) and f.attr == "validate_async" and len(args) == 1:
+                return f"(.validateAsync {self.exp(f.value)} {self.exp(args[0])})"
+            if isinstance(f, ast.Attribute) and f.attr == "items" and not args:
+                return f"(.items {self.exp(f.value)})"
+            if len(args) == 1 and not (isinstance(f, ast.Name) and f.id not in MVARS):
+                return f"(.call1 {self.exp(f)} {self.exp(args[0])})"
+        return f"(.unsupported {lstr(ast.dump(e)[:160])})"
+
+    def stmt(self, s: ast.stmt) -> str:
+        if isinstance(s, ast.Assign) and len(s.targets) == 1:
+            t = s.targets[0]
+            if isinstance(t, ast.Name) and t.id in MVARS:
+                return f"(.assign .{MVARS[t.id]} {self.exp(s.value)})"
+            if isinstance(t, ast.Subscript) and isinstance(t.value, ast.Name) and t.value.id in MVARS:
+                return f"(.setItem .{MVARS[t.value.id]} {self.exp(t.slice)} {self.exp(s.value)})"
+        if isinstance(s, ast.AnnAssign) and isinstance(s.target, ast.Name) and s.target.id in MVARS and s.value is not None:
+            return f"(.assign .{MVARS[s.target.id]} {self.exp(s.value)})"
+        if isinstance(s, ast.If):
+            return f"(.ite {self.exp(s.test)} {self.block(s.body)} {self.block(s.orelse)})"
+        if isinstance(s, ast.For) and not s.orelse:
+            t = s.target
+            if isinstance(t, ast.Name) and t.id in MVARS:
+                return f"(.forIn .{MVARS[t.id]} {self.exp(s.iter)} {self.block(s.body)})"
+            if isinstance(t, ast.Tuple) and len(t.elts) == 2 and all(isinstance(x, ast.Name) and x.id in MVARS for x in t.elts):
+                return f"(.forIn2 .{MVARS[t.elts[0].id]} .{MVARS[t.elts[1].id]} {self.exp(s.iter)} {self.block(s.body)})"
+        if isinstance(s, ast.Return) and s.value is not None:
+            return f"(.ret {self.exp(s.value)})"
+        if isinstance(s, ast.Expr) and isinstance(s.value, ast.Call):
+            c = s.value
+            if (isinstance(c.func, ast.Attribute) and c.func.attr == "append" and isinstance(c.func.value, ast.Name)
+                    and c.func.value.id in MVARS and len(c.args) == 1 and not c.keywords):
+                return f"(.append .{MVARS[c.func.value.id]} {self.exp(c.args[0])})"
+            return f"(.expr {self.exp(c)})"
+        return f"(.unsupported {lstr(ast.dump(s)[:160])})"
+
+    def block(self, body: List[ast.stmt]) -> str:
+        body = [s for s in body if not (isinstance(s, ast.Expr) and isinstance(s.value, ast.Constant))]
+        return "[" + ", ".join(self.stmt(s) for s in body) + "]"
+
+
+def render_map() -> str:
+    lines = ["/- GENERATED by harness/pysrc.py from the current source of /repo/koda_validate/dictionary.py — do not edit -/",
+             "import KodaModel.PyMap", "", "namespace Koda.Src", ""]
+    for meth, name in (("__call__", "mapSync"), ("validate_async", "mapAsync")):
+        m = _find_method("dictionary.py", "MapValidator", meth)
+        ok = (m is not None and [a.arg for a in m.args.args] == ["self", "val"] and not m.decorator_list
+              and isinstance(m, ast.AsyncFunctionDef) == (meth == "validate_async"))
+        term = MTr().block(m.body) if ok else '[.unsupported "not found / signature"]'
+        lines += [f"def {name} : List MStmt :=", f"  {term}", ""]
+    m = _find_method("dictionary.py", "MapValidator", "__init__")
+    init = (" ; ".join(ast.unparse(b) for b in m.body if not (isinstance(b, ast.Expr) and isinstance(b.value, ast.Constant)))
+            if m is not None else "<not found>")
+    lines += [f"def mapInit : String := {lstr(init)}", "", "end Koda.Src", ""]
+    return "\n".join(lines)
+
+
+# ---------------------------------------------------------------------------------------------
+# DictValidatorAny (dictionary.py) -> Koda.DStmt (lean/KodaModel/PyDictAny.lean)
+
+OUT_DICTANY = os.path.join(os.path.dirname(OUT), "DictAnySrc.lean")
+DVARS = {"key_": "keyU", "validator": "validator", "key_required": "keyRequired", "success_dict": "successDict",
+         "errs": "errs", "success": "success", "new_val": "newVal", "result": "result"}
+DSELF = {"_disallow_synchronous": "disallowSync", "__class__": "cls", "fail_on_unknown_keys": "failOnUnknownKeys",
+         "_keys_set": "keysSet", "_unknown_keys_err": "unknownKeysErr", "_fast_keys_sync": "fastKeysSync",
+         "_fast_keys_async": "fastKeysAsync", "validate_object": "validateObject",
+         "validate_object_async": "validateObjectAsync"}
+DCTORS = {"TypeErr": ("mkTypeErr", 1), "KeyErrs": ("mkKeyErrs", 1), "Invalid": ("mkInvalid", 3),
+          "_raise_validate_object_async_in_sync_mode": ("raiseAsyncInSync", 1)}
+
+
+class DTr:
+    def exp(self, e: ast.expr) -> str:
+        if isinstance(e, ast.Name):
+            if e.id == "self":
+                return ".self"
+            if e.id == "data":
+                return ".data"
+            if e.id == "dict":
+                return ".dictTy"
+            if e.id == "missing_key_err":
+                return ".missingKeyErr"
+            if e.id in DVARS:
+                return f"(.var .{DVARS[e.id]})"
+        if isinstance(e, ast.Constant) and isinstance(e.value, bool):
+            return f"(.bool {'true' if e.value else 'false'})"
+        if isinstance(e, ast.Dict) and not e.keys:
+            return ".emptyDict"
+        if isinstance(e, ast.Await):
+            return f"(.await {self.exp(e.value)})"
+        if isinstance(e, ast.Tuple) and len(e.elts) == 2:
+            return f"(.pair {self.exp(e.elts[0])} {self.exp(e.elts[1])})"
+        if isinstance(e, ast.BoolOp) and isinstance(e.op, ast.And) and len(e.values) == 2:
+            return f"(.and {self.exp(e.values[0])} {self.exp(e.values[1])})"
+        if isinstance(e, ast.NamedExpr) and isinstance(e.target, ast.Name) and e.target.id in DVARS:
+            return f"(.walrus .{DVARS[e.target.id]} {self.exp(e.value)})"
+        if isinstance(e, ast.UnaryOp) and isinstance(e.op, ast.Not):
+            return f"(.not {self.exp(e.operand)})"
+        if isinstance(e, ast.Compare) and len(e.ops) == 1:
+            l, r = e.left, e.comparators[0]
+            if (isinstance(e.ops[0], ast.Is) and isinstance(l, ast.Call) and isinstance(l.func, ast.Name) and l.func.id == "type"
+                    and len(l.args) == 1 and not l.keywords and isinstance(r, ast.Name) and r.id == "dict"):
+                return f"(.typeIs {self.exp(l.args[0])} .dictTy)"
+            if isinstance(e.ops[0], ast.NotIn):
+                return f"(.notIn {self.exp(l)} {self.exp(r)})"
+        if isinstance(e, ast.Subscript):
+            return f"(.subscript {self.exp(e.value)} {self.exp(e.slice)})"
+        if isinstance(e, ast.Attribute) and isinstance(e.value, ast.Name) and e.value.id == "self":
+            a = f".{DSELF[e.attr]}" if e.attr in DSELF else f"(.other {lstr(e.attr)})"
+            return f"(.selfAttr {a})"
+        if isinstance(e, ast.Call) and not e.keywords and not any(isinstance(a, ast.Starred) for a in e.args):
+            f, args = e.func, e.args
+            if isinstance(f, ast.Name) and f.id in DCTORS and len(args) == DCTORS[f.id][1]:
+                return f"(.{DCTORS[f.id][0]} {' '.join(self.exp(a) for a in args)})"
+            if len(args) == 1 and not (isinstance(f, ast.Name) and f.id not in DVARS):
+                return f"(.call1 {self.exp(f)} {self.exp(args[0])})"
+        return f"(.unsupported {lstr(ast.dump(e)[:160])})"
+
+    def stmt(self, s: ast.stmt) -> str:
+        if isinstance(s, ast.Assign) and len(s.targets) == 1:
+            t = s.targets[0]
+            if isinstance(t, ast.Name) and t.id in DVARS:
+                return f"(.assign .{DVARS[t.id]} {self.exp(s.value)})"
+            if (isinstance(t, ast.Tuple) and len(t.elts) == 2 and all(isinstance(x, ast.Name) and x.id in DVARS for x in t.elts)):
+                return f"(.assign2 .{DVARS[t.elts[0].id]} .{DVARS[t.elts[1].id]} {self.exp(s.value)})"
+            if isinstance(t, ast.Subscript) and isinstance(t.value, ast.Name) and t.value.id in DVARS:
+                return f"(.setItem .{DVARS[t.value.id]} {self.exp(t.slice)} {self.exp(s.value)})"
+        if isinstance(s, ast.AnnAssign) and isinstance(s.target, ast.Name) and s.target.id in DVARS and s.value is not None:
+            return f"(.assign .{DVARS[s.target.id]} {self.exp(s.value)})"
+        if isinstance(s, ast.If):
+            return f"(.ite {self.exp(s.test)} {self.block(s.body)} {self.block(s.orelse)})"
+        if isinstance(s, ast.For) and not s.orelse:
+            t = s.target
+            if isinstance(t, ast.Name) and t.id in DVARS:
+                return f"(.forIn .{DVARS[t.id]} {self.exp(s.iter)} {self.block(s.body)})"
+            if isinstance(t, ast.Tuple) and len(t.elts) == 3 and all(isinstance(x, ast.Name) and x.id in DVARS for x in t.elts):
+                a, b, c = t.elts
+                return f"(.forIn3 .{DVARS[a.id]} .{DVARS[b.id]} .{DVARS[c.id]} {self.exp(s.iter)} {self.block(s.body)})"
+        if isinstance(s, ast.Return) and s.value is not None:
+            return f"(.ret {self.exp(s.value)})"
+        if isinstance(s, ast.Expr) and isinstance(s.value, ast.Call):
+            return f"(.expr {self.exp(s.value)})"
+        return f"(.unsupported {lstr(ast.dump(s)[:160])})"
+
+    def block(self, body: List[ast.stmt]) -> str:
+        body = [s for s in body if not (isinstance(s, ast.Expr) and isinstance(s.value, ast.Constant))]
+        return "[" + ", ".join(self.stmt(s) for s in body) + "]"
+
+
+def render_dictany() -> str:
+    lines = ["/- GENERATED by harness/pysrc.py from the current source of /repo/koda_validate/dictionary.py — do not edit -/",
+             "import KodaModel.PyDictAny", "", "namespace Koda.Src", ""]
+    for meth, name in (("_validate_to_tuple", "dictAnySync"), ("_validate_to_tuple_async", "dictAnyAsync")):
+        m = _find_method("dictionary.py", "DictValidatorAny", meth)
+        ok = (m is not None and [a.arg for a in m.args.args] == ["self", "data"] and not m.decorator_list
+              and isinstance(m, ast.AsyncFunctionDef) == meth.endswith("_async"))
+        term = DTr().block(m.body) if ok else '[.unsupported "not found / signature"]'
+        lines += [f"def {name} : List DStmt :=", f"  {term}", ""]
+    m = _find_method("dictionary.py", "DictValidatorAny", "__init__")
+    init = (" ; ".join(ast.unparse(b).replace("\n", " ") for b in m.body if not (isinstance(b, ast.Expr) and isinstance(b.value, ast.Constant)))
+            if m is not None else "<not found>")
+    lines += [f"def dictAnyInit : String := {lstr(init)}", "", "end Koda.Src", ""]
+    return "\n".join(lines)
+
+
 def render() -> str:
     found = collect()
     lines = ["/- GENERATED by harness/pysrc.py from the current source of /repo/koda_validate — do not edit -/",
@@ -1128,7 +1355,7 @@ def render() -> str:
 
 def regenerate() -> bool:
     changed = False
-    for path, new in ((OUT, render()), (OUT_COERCE, render_coerce()), (OUT_SCALAR, render_scalar()), (OUT_UNION, render_union()), (OUT_LIST, render_list()), (OUT_WRAP, render_wrap()), (OUT_EQ, render_eq()), (OUT_CACHE, render_cache()), (OUT_SEQ, render_seq()), (OUT_NTUPLE, render_ntuple())):
+    for path, new in ((OUT, render()), (OUT_COERCE, render_coerce()), (OUT_SCALAR, render_scalar()), (OUT_UNION, render_union()), (OUT_LIST, render_list()), (OUT_WRAP, render_wrap()), (OUT_EQ, render_eq()), (OUT_CACHE, render_cache()), (OUT_SEQ, render_seq()), (OUT_NTUPLE, render_ntuple()), (OUT_MAP, render_map()), (OUT_DICTANY, render_dictany())):
         old = open(path).read() if os.path.exists(path) else None
         if new != old:
             with open(path, "w") as f:
